@@ -340,7 +340,7 @@ PROPS["C09"] = dict(
     level="fault_enumeration",
     rule="per case one random realisable FRI geometry x 12 instantiations x 1..255 drawn queries: (a) random functions and "
          "polynomials of degree bound+1..4(bound+1)-1 with uniform coefficients through the honest prover must be rejected; "
-         "(b) every understated bound in {bound-1, bound-8, bound/2, (bound+1)/2-1, (bound+1)/folding-1, 1, 0} must be "
+         "(b) every understated bound in {bound-1, bound-8, bound/2, (bound+1)/2-1, (bound+1)/folding-1, 1, 0, bound - j*folding^layers (same domain, no truncation error)} must be "
          "rejected; (c) at EVERY layer of an honest proof: one value changed, two rows swapped, one row crafted to keep "
          "its fold at alpha; remainder coefficient changed, remainder crafted as R + c*prod(x-x_i) over all queried final "
          "points, remainder with leading zeros trimmed; each crafted forgery is first validated (accepted when only the "
